@@ -307,8 +307,7 @@ def oracle(c, obs):
     for i, (s, o) in enumerate(zip(c["steps"], obs)):
         status, dmp, add = o
         after = {key_of(k): vals for k, vals in dmp}
-        approx = bool(s.get("approx"))
-        eq = close if approx else (lambda a, b: a == b)
+        eq = lambda a, b: a == b      # noqa: E731  (replaced by [close] when binary32 cannot be exact)
         where = f"step {i} ({rule} rule, period {s['p']})"
         if len(after) != len(dmp):
             return f"duplicate-key: {where}: a period is listed twice among the known periods"
@@ -354,6 +353,9 @@ def oracle(c, obs):
                         return f"divide-refused: {where}: {k} sub-periods unknown but {status.kind} {status.msg}"
                     share = [(A[e] - ksum[e]) / k for e in range(n)]
                     representable = v["vt"] == "float" or all(x.denominator == 1 for x in share)
+                    if v["vt"] == "float" and not (all(f32_exact(x) for x in share + A + ksum)
+                                                   and sums_exact([after.get(t, []) for t in T], n)):
+                        eq = close            # binary32 rounds here: compare with a tolerance
                     for t in unknown:
                         if t not in after:
                             return f"divide-missing: {where}: sub-period {t} received no value"
@@ -382,6 +384,19 @@ def oracle(c, obs):
 
 # ---- evidence helpers -------------------------------------------------------------------------------
 
+def sums_exact(arrays, n):
+    """every partial sum (in order) of the observed arrays is exact in binary32"""
+    for e in range(n):
+        acc = F(0)
+        for a in arrays:
+            if len(a) != n:
+                return False
+            acc += a[e]
+            if not f32_exact(acc):
+                return False
+    return True
+
+
 def nontrivial(c, o):
     """A rule spread an input over at least two sub-periods, or refused a contradiction."""
     if isinstance(o, Err) or c["var"]["rule"] == "none":
@@ -409,6 +424,30 @@ def classify(c, o):
     return tag
 
 
+def normalise(c):
+    """Recompute the per-step flags of a (shrunk / modified) history with the Fraction reference:
+    a step that binary32 cannot represent exactly is marked approx and ends the history."""
+    ref = Ref(c["var"], c["n"])
+    steps = []
+    for s in c["steps"]:
+        s = dict(s)
+        s.pop("approx", None)
+        ref.inexact = False
+        ref.set_input(s["p"], s["vals"])
+        if s.get("add") and not (claimed(c, s) and ref.add_exact(s["p"])):
+            if claimed(c, s):
+                ref.inexact = True
+            else:
+                s.pop("add")
+        if ref.inexact:
+            s["approx"] = True
+            s.pop("add", None)
+            steps.append(s)
+            break
+        steps.append(s)
+    return dict(c, steps=steps)
+
+
 def shrink(c, still_fails):
     cur = c
     progress = True
@@ -416,16 +455,13 @@ def shrink(c, still_fails):
         progress = False
         i = 0
         while i < len(cur["steps"]) and len(cur["steps"]) > 1:
-            cand = dict(cur)
-            cand["steps"] = cur["steps"][:i] + cur["steps"][i + 1:]
+            cand = normalise(dict(cur, steps=cur["steps"][:i] + cur["steps"][i + 1:]))
             if still_fails(cand):
                 cur, progress = cand, True
             else:
                 i += 1
         if cur["n"] > 1:
-            cand = dict(cur)
-            cand["n"] = 1
-            cand["steps"] = [dict(s, vals=s["vals"][:1]) for s in cur["steps"]]
+            cand = normalise(dict(cur, n=1, steps=[dict(s, vals=s["vals"][:1]) for s in cur["steps"]]))
             if still_fails(cand):
                 cur, progress = cand, True
     return cur
@@ -437,12 +473,10 @@ def neighbours(c, rng):
         for vt in ("float", "int"):
             d = dict(c)
             d["var"] = dict(c["var"], rule=rule, vt=vt)
-            d["steps"] = [dict(s, approx=False, vals=[int(frac(x)) for x in s["vals"]]) for s in c["steps"]]
-            out.append(d)
+            d["steps"] = [dict(s, vals=[int(frac(x)) for x in s["vals"]]) for s in c["steps"]]
+            out.append(normalise(d))
     for i in range(len(c["steps"])):
-        d = dict(c)
-        d["steps"] = c["steps"][:i + 1]
-        out.append(d)
+        out.append(normalise(dict(c, steps=c["steps"][:i + 1])))
     return out
 
 
